@@ -165,6 +165,29 @@ func litmusPrograms() []litmus {
 			}
 			return inst([]func(){f}, func() string { return res })
 		}},
+		{name: "pool-use-after-put", outcomes: []string{"1 1", "1 2", "2 2"}, race: true, make: func() *sched.Instance {
+			// an object read after it was put back may already belong to someone else
+			p := zvsync.Pool{New: func() any { return new(int) }}
+			var r [2]int
+			f := func(i int) func() {
+				return func() {
+					x := p.Get().(*int)
+					*x = i + 1
+					p.Put(x)
+					r[i] = *x
+				}
+			}
+			return inst([]func(){f(0), f(1)}, func() string { return fmt.Sprint(r[0], " ", r[1]) })
+		}},
+		{name: "pool-put-get-is-ordered", outcomes: []string{"ok"}, make: func() *sched.Instance {
+			p := zvsync.Pool{New: func() any { return new(int) }}
+			f := func() {
+				x := p.Get().(*int)
+				*x++
+				p.Put(x)
+			}
+			return inst([]func(){f, f}, func() string { return "ok" })
+		}},
 		{name: "trylock-and-tryacquire", outcomes: []string{"1", "2"}, make: func() *sched.Instance {
 			var mu zvsync.Mutex
 			sem := zvsync.NewWeighted(1)
